@@ -1,2 +1,134 @@
-(* C01 (under construction). *)
-From XV Require Import Lib.Sx Model.Codec Proofs.XmlTextP Proofs.XmlLexP Proofs.CodecP.
+(* C01 — stanza encode/decode round trip preserves every field; text never injects
+   XML.  Only statements, closed by lemmas of Proofs/, with their assumptions printed.
+
+   Strings are lists of Unicode code points.  Models: Model/XmlText.v (Go's
+   EscapeText table), Model/XmlPrint.v (the encoder's element syntax),
+   Model/XmlLex.v (lexer + tree builder for that syntax, default-namespace
+   inheritance), Model/Codec.v (values of the stanza core, enc / dec mirroring
+   MarshalXML / UnmarshalXML).  Registered extensions and IQ payloads are opaque
+   well-formed element trees dispatched through the registry (their own codecs are
+   checked by reflection in the harness, not proved). *)
+From Coq Require Import List ZArith NArith Bool.
+From XV Require Import Lib.Sx Gen.Generated Model.XmlText Model.XmlPrint Model.XmlLex Model.Codec
+  Proofs.XmlTextP Proofs.XmlLexP Proofs.CodecP.
+Import ListNotations.
+Open Scope N_scope.
+
+(* ---------- 1. injection half ---------- *)
+
+(* Whatever the text (any code points at all), in both escaping styles: the escaped
+   form contains none of  <  >  dquote  apostrophe, every & in it starts one of the
+   eight entities of Go's table, and every character of it is XML-legal. *)
+Theorem C01_escape_inert : forall (nl : bool) (s : str),
+  forallb (fun c => negb (is_delim c)) (escape nl s) = true
+  /\ amp_ok (escape nl s) = true
+  /\ all_legal (escape nl s) = true.
+Proof.
+  intros nl s. split; [apply escape_no_delim|split; [apply amp_ok_escape|apply escape_all_legal]].
+Qed.
+
+(* Unescaping gives the text back, characters outside the XML character range
+   (legal = Go's isInCharacterRange) having been replaced by U+FFFD as Go does. *)
+Theorem C01_unescape_escape_any : forall (nl : bool) (s : str),
+  unescape (escape nl s) = Some (map sanitize s).
+Proof. exact unescape_escape_gen. Qed.
+
+(* For text made of XML-legal characters the round trip is exact. *)
+Theorem C01_unescape_escape : forall (nl : bool) (s : str),
+  all_legal s = true -> unescape (escape nl s) = Some s.
+Proof. exact unescape_escape. Qed.
+
+(* ---------- 2. printing and parsing element trees ---------- *)
+
+Theorem C01_lex_print : forall ts : list tok,
+  wf_toks ts = true -> lex (print_toks ts) = Some ts.
+Proof. exact lex_print_toks. Qed.
+
+(* namespace-explicit well-formed trees, unbounded depth and width *)
+Theorem C01_parse_print : forall t : xtree,
+  wf_doc t = true -> parse (print t) = Some t.
+Proof. exact parse_print. Qed.
+
+(* ---------- 3. the codec ---------- *)
+
+(* generic payloads: every Node tree at all decodes back from its encoding *)
+Theorem C01_node_roundtrip : forall n : node, dec_node (enc_node n) = Some n.
+Proof. exact dec_enc_node. Qed.
+
+(* value level, for every registry that leaves the un-namespaced core children alone *)
+Theorem C01_roundtrip_core : forall (reg : registry) (v : value),
+  reg_ok reg = true -> wf_value reg v = true ->
+  dec reg (vtype_of v) (enc v) = Some v.
+Proof. exact dec_enc. Qed.
+
+(* through the bytes: what is written parses, and decodes to the value *)
+Theorem C01_roundtrip_wire : forall (reg : registry) (v : value),
+  reg_ok reg = true -> wf_value reg v = true ->
+  exists t, parse (print (enc v)) = Some t /\ dec reg (vtype_of v) t = Some v.
+Proof.
+  intros reg v Hr Hw. exists (enc v).
+  split; [apply parse_print, (wf_enc reg v Hw)|apply (dec_enc reg v Hr Hw)].
+Qed.
+
+(* writing the decoded value again gives the same bytes *)
+Theorem C01_reprint : forall (reg : registry) (v v' : value) (t : xtree),
+  reg_ok reg = true -> wf_value reg v = true ->
+  parse (print (enc v)) = Some t -> dec reg (vtype_of v) t = Some v' ->
+  print (enc v') = print (enc v).
+Proof.
+  intros reg v v' t Hr Hw Hp Hd.
+  rewrite (parse_print _ (wf_enc reg v Hw)) in Hp. injection Hp as <-.
+  rewrite (dec_enc reg v Hr Hw) in Hd. now injection Hd as <-.
+Qed.
+
+(* the element structure (names, nesting, attribute names) read back from the bytes
+   of v is that of any v' that differs from v only in the contents of text
+   positions (blank: every text replaced by a fixed text of the same emptiness) *)
+Theorem C01_skeleton : forall (reg : registry) (v v' : value),
+  wf_value reg v = true -> blank v = blank v' ->
+  option_map skeleton (parse (print (enc v))) = Some (skeleton (enc v')).
+Proof. exact skeleton_text_independent. Qed.
+
+(* generated obligation: the live registry (Gen/Generated.v, regenerated from the
+   code on every run) satisfies the side condition *)
+Theorem C01_registry_ok : reg_ok Generated.registry = true.
+Proof. vm_compute. reflexivity. Qed.
+
+Theorem C01_roundtrip_live_registry : forall v : value,
+  wf_value Generated.registry v = true ->
+  exists t, parse (print (enc v)) = Some t /\ dec Generated.registry (vtype_of v) t = Some v.
+Proof. intros v Hw. exact (C01_roundtrip_wire Generated.registry v C01_registry_ok Hw). Qed.
+
+(* recorded finding (code left as it is): SMFailed.UnmarshalXML never reads h *)
+Theorem C01_smfailed_h_refuted : exists (reg : registry) (v : value),
+  reg_ok reg = true /\ dec reg (vtype_of v) (enc v) <> Some v.
+Proof. exists [], (VSMFailed (Some 5)). split; [reflexivity|discriminate]. Qed.
+
+(* ---------- non-vacuity ---------- *)
+Definition C01_example_message : value :=
+  VMessage (mkMessage (mkAttrs [99;104;97;116] [105;100;60;49;62] [] [97;64;98;47;99] [101;110]) [] [97;60;98;38;34;99;39;10;93;93;62;32;9] [116] (mkErr 0 [99;97;110;99;101;108] [105;116;101;109;45;110;111;116;45;102;111;117;110;100] [110;111;116;10;104;101;114;101]) [XE [117;114;110;58;120;109;112;112;58;104;105;110;116;115] [110;111;45;99;111;112;121] [] []; XE [117;114;110;58;120;109;112;112;58;114;101;99;101;105;112;116;115] [114;101;99;101;105;118;101;100] [([105;100], [120;38;121])] []]).
+Definition C01_example_iq : value :=
+  VIQ (mkIQ (mkAttrs [103;101;116] [49] [] [] [101;110]) None (Some (mkErr 404 [] [] [60;103;111;110;101;47;62])) (Some (Node [117;114;110;58;120;58;49] [113] [([97], [118;34;60])] [32;120;10;121;32] [Node [117;114;110;58;120;58;49] [99] [] [] []; Node [117;114;110;58;120;58;50] [100] [] [38] []]))).
+
+Example C01_examples_wf :
+  wf_value Generated.registry C01_example_message = true
+  /\ wf_value Generated.registry C01_example_iq = true
+  /\ wf_value Generated.registry (VSMEnable (Some 5) (Some true)) = true
+  /\ wf_doc (enc C01_example_message) = true
+  /\ wf_toks (toks (enc C01_example_iq)) = true
+  /\ all_legal [60; 62; 38; 34; 39; 93; 93; 62; 9; 10; 13; 233; 28450; 128512] = true.
+Proof. vm_compute. repeat split. Qed.
+
+Print Assumptions C01_escape_inert.
+Print Assumptions C01_unescape_escape_any.
+Print Assumptions C01_unescape_escape.
+Print Assumptions C01_lex_print.
+Print Assumptions C01_parse_print.
+Print Assumptions C01_node_roundtrip.
+Print Assumptions C01_roundtrip_core.
+Print Assumptions C01_roundtrip_wire.
+Print Assumptions C01_reprint.
+Print Assumptions C01_skeleton.
+Print Assumptions C01_registry_ok.
+Print Assumptions C01_roundtrip_live_registry.
+Print Assumptions C01_smfailed_h_refuted.
